@@ -647,7 +647,17 @@ THREAD_HARNESSES = {
     "TH/T23-fresh-params": [("T23!", "A", b"pw1", 3), ("T23!", "B", b"pw1", 6)],
     "TH/T23-fresh-params-S": [("T23!", "S", b"pw1", 3), ("T23!", "A", b"pw2", 6)],
     "TH/T509-redraw": [("T509", "S", b"pw1", -3), ("T509", "S", b"pw2", -100)],
+    # a NEW import of the whole library for every explored execution: the threads make the first use of its module-level state, on
+    # the default (Ed25519) parameter set with full-size scalars; scheduling points only in frames that can write heap state or read
+    # mutable module-level objects (sched.atomic_frame)
+    "THF/Ed25519-first-use": [("ED!!", "A", b"pw1", (1 << 251) + 12345), ("ED!!", "B", b"pw2", (1 << 250) + 7)],
+    "THF/Ed25519-first-use-S": [("ED!!", "S", b"pw1", (1 << 252) + 3), ("ED!!", "A", b"pw1", (1 << 200) + 11)],
+    "THF3/Ed25519-first-use": [("ED!!", "A", b"pw1", (1 << 251) + 12345), ("ED!!", "B", b"pw2", (1 << 250) + 7), ("ED!!", "S", b"pw1", (1 << 252) + 3)],
 }
+
+
+def _fresh_import(hname):
+    return hname.startswith("THF")
 
 
 def thread_bodies(hname):
@@ -655,6 +665,26 @@ def thread_bodies(hname):
     mk = []
     fresh = {}
     for k, (key, side, pw, x) in enumerate(specs):
+        if key == "ED!!":
+            if key not in fresh:
+                fresh[key] = T.fresh_lib()
+            FL = fresh[key]
+            ref = pinst("ParamsEd25519")
+            R, rp = ref.ref, ref.rp
+            ids = C.ids_for(side, k + 1)
+            w = R.pw_scalar(pw)
+            inbound = RS.message(rp, C.PEER[side], w, (x * 3 + 1) % ref.q)
+
+            def body(FL=FL, side=side, pw=pw, ids=ids, x=x, inbound=inbound, R=R):
+                ent = T.Script(R.entropy_for_scalar(x))
+                if side == "S":
+                    s = FL.S(pw, idSymmetric=ids[0], entropy_f=ent)
+                else:
+                    s = FL.cls[side](pw, idA=ids[0], idB=ids[1], entropy_f=ent)
+                m = s.start()
+                return (m, s.finish(inbound))
+            mk.append(body)
+            continue
         if key.endswith("!"):
             if key not in fresh:
                 fresh[key] = T.int_toy(key[:-1])      # new IntegerGroup + new _Params, shared by the threads of this execution
@@ -684,6 +714,20 @@ def thread_expected(hname):
     return [T.observe(b) for b in thread_bodies(hname)]
 
 
+def thread_reference(hname):
+    """what the reference model defines for the bodies of a fresh-import harness"""
+    out = []
+    ref = pinst("ParamsEd25519")
+    R, rp = ref.ref, ref.rp
+    for k, (key, side, pw, x) in enumerate(THREAD_HARNESSES[hname.split("@")[0]]):
+        ids = C.ids_for(side, k + 1)
+        w = R.pw_scalar(pw)
+        inbound = RS.message(rp, C.PEER[side], w, (x * 3 + 1) % ref.q)
+        f = RS.finish(rp, side, pw, w, ids if side != "S" else (ids[0],), x, inbound)
+        out.append(("ok", (RS.message(rp, side, w, x), f[1])) if f[0] == "key" else ("exc", f[1]))
+    return out
+
+
 def _opc(hname):
     return hname.endswith("@opcode")
 
@@ -693,7 +737,7 @@ def _thread_root_task(task):
     thread_expected(hname)      # warm-up: every explored execution then starts from the same (warm) process state
     if _opc(hname):
         sched.warm_opcodes(thread_bodies(hname), T.PKG)
-    r = sched.Run(thread_bodies(hname), [], T.PKG, _opc(hname))
+    r = sched.Run(thread_bodies(hname), [], T.PKG, _opc(hname), _fresh_import(hname))
     res = r.run()
     alts = sched.alternatives(r, 0, bound)
     return hname, res, alts, len(r.points)
@@ -719,7 +763,7 @@ def _thread_task(task):
     n = 0
     for p in prefixes:
         try:
-            n += sched.explore(lambda: thread_bodies(hname), bound, T.PKG, on_result, prefix=p, opcodes=_opc(hname))
+            n += sched.explore(lambda: thread_bodies(hname), bound, T.PKG, on_result, prefix=p, opcodes=_opc(hname), reduce=_fresh_import(hname))
         except sched.Divergence as e:
             # the execution path under the same schedule prefix changed between executions: state is carried over between
             # executions (e.g. a cache).  Not a verdict by itself - the interleaving enumerations decide.
@@ -733,8 +777,8 @@ def _thread_task(task):
 def run_threads(acc, tier):
     bound = 1 if tier == "quick" else 2
     names = ["TH/T23-same-params", "TH/T23-S-S", "TH/T23+T29", "TH/T23+T23'", "TH/T23-redraw", "TH/T23-fresh-params", "TH/T23-fresh-params-S",
-             "TH3/T23-three-sessions"] + \
-            ([] if tier == "quick" else ["TH/T509+T23", "TH/E37", "TH3/T23-S", "TH/T509-redraw", "TH/T23-same-params@opcode", "TH/T23+T23'@opcode",
+             "TH3/T23-three-sessions", "THF/Ed25519-first-use", "THF/Ed25519-first-use-S"] + \
+            ([] if tier == "quick" else ["TH/T509+T23", "TH/E37", "TH3/T23-S", "TH/T509-redraw", "THF3/Ed25519-first-use", "TH/T23-same-params@opcode", "TH/T23+T23'@opcode",
                                          "TH/T23-redraw@opcode"])
     ok_names = []
     for n in names:
@@ -744,13 +788,17 @@ def run_threads(acc, tier):
         except Exception as e:
             acc.degrade("thread harness %s unavailable: %s: %s" % (n, type(e).__name__, e))
     names = ok_names
-    b1 = lambda n: 1 if (n == "TH/E37" or n.startswith("TH3/") or _opc(n)) else bound
+    b1 = lambda n: 1 if (n == "TH/E37" or n.startswith("TH3/") or n.startswith("THF3/") or _opc(n)) else bound
     roots = core.pmap(_thread_root_task, [(n, b1(n)) for n in names])
     jobs = []
     for hname, res, alts, npoints in roots:
         b = b1(hname)
         exp = thread_expected(hname)
         acc.n(traces=1, states=1, transitions=npoints)
+        if _fresh_import(hname) and exp != thread_reference(hname):
+            acc.violation("C16/threads/%s/isolated-run-differs-from-definition" % hname.split("/")[1],
+                          {"what": "sessions run one after the other on a freshly imported library do not produce the message/key defined by their arguments",
+                           "replay": {"fn": "schedule", "harness": hname, "choices": []}, "expected": thread_reference(hname), "observed": exp})
         acc.extra.setdefault("threads", {})[hname] = {"scheduling_points_default_schedule": npoints, "preemption_bound": b, "first_level_alternatives": len(alts)}
         if res != exp:
             acc.violation("C16/threads/%s/differs-from-isolated-run" % hname.split("/")[1],
@@ -831,7 +879,9 @@ def replay(rec):
         a = Acc()
         H.check_isolated(a)
         return sorted(a.viol)
-    run_ = sched.Run(thread_bodies(r["harness"]), r["choices"], T.PKG, _opc(r["harness"]))
+    if not r["choices"] and _fresh_import(r["harness"]):
+        return thread_expected(r["harness"])
+    run_ = sched.Run(thread_bodies(r["harness"]), r["choices"], T.PKG, _opc(r["harness"]), _fresh_import(r["harness"]))
     return run_.run()
 
 
